@@ -13,8 +13,9 @@
                                 ++ enc_zlist (decode (encode data)), zip = unzip = identity
    kind 3 (one Reader object)
                         input : [3; n; nc; zc; nch; ns0; f0] ++ ops   f0 1=.bin 2=.cbin; op 0=open()
-                                1/2=compress_file keep/in place, 3/4=decompress_file keep/in place, 5=to_scratch
-                        output: [#ops] ++ per op [raised; file; nbytes; ns; raw; warned; bin exists; cbin exists]
+                                1/2=compress_file keep/in place, 3/4=decompress_file keep/in place,
+                                5=decompress_to_scratch(dir) 6=decompress_to_scratch(None)
+                        output: [#ops] ++ per op [raised; file; nbytes; ns; raw; warned; bin exists; cbin exists; scratch bin exists]
                                 ++ [file a fresh Reader(x.meta) would resolve to]
                                 raw 0=None 1=memmap 2=mtscomp 3=closed
    state quadruple: [0;0;0;0] absent, [1;j;0;0] partial with j chunks,
@@ -110,14 +111,15 @@ Definition run_codec (nc ns size : Z) (data : list Z) : list Z :=
 (* ---- kind 3 ---- *)
 Definition dec_rop (z : Z) : rop :=
   if z =? 0 then ROpen else if z =? 1 then RCompress true else if z =? 2 then RCompress false
-  else if z =? 3 then RDecompress true else if z =? 4 then RDecompress false else RScratch.
+  else if z =? 3 then RDecompress true else if z =? 4 then RDecompress false
+  else if z =? 5 then RScratch true else RScratch false.
 Definition enc_raw (k : rawk) : Z :=
   match k with RawNone => 0 | RawMemmap => 1 | RawMtscomp => 2 | RawClosed => 3 end.
 Definition enc_rstate (x : rstate * bool) : list Z :=
   let '(s, e) := x in
   let o := s_obj s in
   [enc_bool e; enc_file (Some (o_file o)); o_nbytes o; o_ns o; enc_raw (o_raw o);
-   enc_bool (o_warn o); enc_bool (s_eb s); enc_bool (s_ec s)].
+   enc_bool (o_warn o); enc_bool (s_eb s); enc_bool (s_ec s); enc_bool (s_sb s)].
 Definition run_obj (n nc zc nch ns0 f0 : Z) (ops : list Z) : list Z :=
   let w := mkW n nc zc nch in
   let s0 := r_start w (if f0 =? 1 then DBin else DCbin) ns0 in
